@@ -355,7 +355,7 @@ def parse_result(txt):
 
 
 def run(ck):
-    n = 480 if ck.quick() else 2500
+    n = 400 if ck.quick() else 2500
     bad = vlib.step_lean(ck, "RlModel.Thm.C05", THEOREMS, extra_targets=["drv_c05"])
     ok, log = vlib.step_cargo(ck, ["c05"])
     if not ok:
